@@ -140,6 +140,15 @@ impl SegmentLogWriter {
                 })
                 .map_err(|_| IggyError::CannotWriteToFile)?;
 
+            // A tokio file write only hands the data to a background blocking task;
+            // wait until it has been performed before the new log size is published.
+            file.flush()
+                .await
+                .with_error_context(|error| {
+                    format!("Failed to flush log file: {}. {error}", self.file_path)
+                })
+                .map_err(|_| IggyError::CannotWriteToFile)?;
+
             Ok(())
         } else {
             error!("File handle is not available for synchronous write.");
